@@ -179,6 +179,11 @@ class Gen:
         if k == 4:
             return "(%s %s)" % (r.choice(["isnull", "isnotnull"]), x)
         if k == 5:
+            if r.random() < 0.3:
+                # Func::cast_as_quoted: the type name prepared between a quote character (doubled inside)
+                # (with the backend's own quote character: a quote the dialect does not know is raw text of the caller's)
+                qc = {"my": [96]}.get(self.b, [34])
+                return "(fncastq %s %s %d)" % (x, hexs(r.choice(["MyType", 'q"t', "b`k", "text"])), r.choice(qc))
             return "(%s %s %s)" % (r.choice(["castas", "fncast"]), x, hexs(r.choice(["text", "integer", "MyType"])))
         if k == 6:
             return "(%s %s %s)" % (r.choice(["andapi", "orapi"]), x, self.expr(d))
